@@ -7,8 +7,8 @@ import Mathlib.Tactic.NormNum
 open PyrexR PyrexGen
 namespace PyrexR
 
-theorem radians_pos (d : ℝ) (hd : 0 < d) : 0 < radians d := by
-  unfold radians
+theorem askRadians_pos (d : ℝ) (hd : 0 < d) : 0 < askRadians d := by
+  unfold askRadians
   have := Real.pi_pos
   positivity
 
@@ -17,13 +17,13 @@ theorem zhs_nu0_pos : (0 : ℝ) < Askc.zhs_nu0 := by simp only [Askc.zhs_nu0]; n
 theorem zhs_denominator_pos (r : ℝ) : 0 < 1 + (Askc.zhs_q : ℝ) * (r * r) := by
   simp only [Askc.zhs_q]
   nlinarith [mul_self_nonneg r]
-theorem zhs_width_pos : 0 < radians (Askc.zhs_width_deg : ℝ) := by
-  apply radians_pos; simp only [Askc.zhs_width_deg]; norm_num
+theorem zhs_width_pos : 0 < askRadians (Askc.zhs_width_deg : ℝ) := by
+  apply askRadians_pos; simp only [Askc.zhs_width_deg]; norm_num
 theorem zhs_half_pos : (0 : ℝ) < Askc.zhs_half := by simp only [Askc.zhs_half]; norm_num
 
 /-! AVZ -/
-theorem rfftfreq_pos (N : ℕ) (dt : ℝ) (k : ℕ) (hN : 0 < N) (hdt : 0 < dt) (hk : 0 < k) : 0 < rfftfreq N dt k := by
-  unfold rfftfreq
+theorem askRfftfreq_pos (N : ℕ) (dt : ℝ) (k : ℕ) (hN : 0 < N) (hdt : 0 < dt) (hk : 0 < k) : 0 < askRfftfreq N dt k := by
+  unfold askRfftfreq
   simp only [RofNat]
   have h1 : (0 : ℝ) < N := by exact_mod_cast hN
   have h2 : (0 : ℝ) < k := by exact_mod_cast hk
@@ -39,8 +39,8 @@ theorem avz_denominator_pos (f pw : ℝ) (hf : 0 < f) : 0 < 1 + Rpow (f / Askc.a
 
 theorem avzWidthEM_pos (emE f : ℝ) (hE : 0 ≤ emE) (hf : 0 < f) : 0 < avzWidthEM emE f := by
   unfold avzWidthEM
-  have hw : 0 < radians (Askc.avz_em_width_deg : ℝ) := by
-    apply radians_pos; simp only [Askc.avz_em_width_deg]; norm_num
+  have hw : 0 < askRadians (Askc.avz_em_width_deg : ℝ) := by
+    apply askRadians_pos; simp only [Askc.avz_em_width_deg]; norm_num
   have hr : (0 : ℝ) < Askc.avz_em_fref := by simp only [Askc.avz_em_fref]; norm_num
   have hl : (0 : ℝ) < Askc.avz_Elpm := by simp only [Askc.avz_Elpm]; norm_num
   have hden : (0 : ℝ) < Askc.avz_lpm_a * emE * Askc.avz_gev_to_ev + Askc.avz_Elpm := by
@@ -53,11 +53,11 @@ theorem avzWidthEM_pos (emE f : ℝ) (hE : 0 ≤ emE) (hf : 0 < f) : 0 < avzWidt
   positivity
 
 theorem avzHadCoef_pos (hadE : ℝ) (hne : ¬(hadE ≤ 0 ∧ 0 ≤ hadE))
-    (heps : 0 ≤ log10 (hadE / Askc.avz_eps_ref)) : 0 < avzHadCoef hadE := by
+    (heps : 0 ≤ askLog10 (hadE / Askc.avz_eps_ref)) : 0 < avzHadCoef hadE := by
   unfold avzHadCoef
   rw [if_neg hne]
   simp only []
-  set eps := log10 (hadE / Askc.avz_eps_ref) with he
+  set eps := askLog10 (hadE / Askc.avz_eps_ref) with he
   simp only [Askc.avz_h1_c0, Askc.avz_h1_c1, Askc.avz_h1_c2, Askc.avz_h2_c0, Askc.avz_h2_c1, Askc.avz_h3_c0,
     Askc.avz_h3_c1, Askc.avz_h3_c2, Askc.avz_h4_c0, Askc.avz_h4_c1, Askc.avz_h4_c2, Askc.avz_h4_slope]
   split_ifs with h1 h2 h3 h4
@@ -77,9 +77,9 @@ theorem avzHadCoef_pos (hadE : ℝ) (hne : ¬(hadE ≤ 0 ∧ 0 ≤ hadE))
         · exact h4 (by linarith)
 
 theorem avzWidthHad_pos (hadE f : ℝ) (hne : ¬(hadE ≤ 0 ∧ 0 ≤ hadE))
-    (heps : 0 ≤ log10 (hadE / Askc.avz_eps_ref)) (hf : 0 < f) : 0 < avzWidthHad hadE f := by
+    (heps : 0 ≤ askLog10 (hadE / Askc.avz_eps_ref)) (hf : 0 < f) : 0 < avzWidthHad hadE f := by
   unfold avzWidthHad
-  apply radians_pos
+  apply askRadians_pos
   have hr : (0 : ℝ) < Askc.avz_h1_fref := by simp only [Askc.avz_h1_fref]; norm_num
   have := avzHadCoef_pos hadE hne heps
   positivity
